@@ -187,6 +187,88 @@ func computeRenames(p *Program) {
 		return
 	}
 	cur, objs := currentSymbols(p)
+	// struct types: a baseline struct that is gone and a new struct of the same package with the same
+	// fields (names, types, order) and the same method names
+	typeOld := map[string]string{} // current "pkg.Name" -> baseline "pkg.Name"
+	{
+		sig := func(fs []symField) string {
+			var b strings.Builder
+			for _, f := range fs {
+				b.WriteString(f.Name + " " + f.Type + ";")
+			}
+			return b.String()
+		}
+		pkgOf := func(k string) string { return k[:strings.LastIndex(k, ".")] }
+		vanished := map[string][]string{}
+		appeared := map[string][]string{}
+		for k, fs := range base.Fields {
+			if _, ok := cur.Fields[k]; !ok {
+				vanished[pkgOf(k)+"|"+sig(fs)] = append(vanished[pkgOf(k)+"|"+sig(fs)], k)
+			}
+		}
+		for k, fs := range cur.Fields {
+			if _, ok := base.Fields[k]; !ok {
+				appeared[pkgOf(k)+"|"+sig(fs)] = append(appeared[pkgOf(k)+"|"+sig(fs)], k)
+			}
+		}
+		for k, vs := range vanished {
+			as := appeared[k]
+			if len(vs) == 1 && len(as) == 1 {
+				typeOld[as[0]] = vs[0]
+				if pkg := p.ByPath[pkgOf(as[0])]; pkg != nil && pkg.Types != nil {
+					if tn, ok := pkg.Types.Scope().Lookup(as[0][strings.LastIndex(as[0], ".")+1:]).(*types.TypeName); ok {
+						renamedObj[tn] = vs[0][strings.LastIndex(vs[0], ".")+1:]
+					}
+				}
+				renameNotes = append(renameNotes, fmt.Sprintf("type %s is the baseline's %s renamed (same fields)", as[0], vs[0]))
+			}
+		}
+	}
+	// view the current symbols under the baseline's type names
+	canonT := func(s string) string {
+		for nw, old := range typeOld {
+			s = replaceIdent(s, nw, old)
+		}
+		return s
+	}
+	if len(typeOld) > 0 {
+		for path, cf := range cur.Funcs {
+			nf := map[string]string{}
+			for k, sg := range cf {
+				recv, name, _ := strings.Cut(k, "|")
+				ptr := strings.HasPrefix(recv, "*")
+				rn := strings.TrimPrefix(recv, "*")
+				if old, ok := typeOld[path+"."+rn]; ok && rn != "" {
+					rn = old[strings.LastIndex(old, ".")+1:]
+				}
+				if ptr {
+					rn = "*" + rn
+				}
+				nk := rn + "|" + name
+				nf[nk] = canonT(sg)
+				if nk != k {
+					objs[path+"|"+nk] = objs[path+"|"+k]
+				}
+			}
+			cur.Funcs[path] = nf
+		}
+		for tk, fs := range cur.Fields {
+			for i := range fs {
+				fs[i].Type = canonT(fs[i].Type)
+			}
+			if old, ok := typeOld[tk]; ok {
+				cur.Fields[old] = fs
+				for i := range fs {
+					objs[old+"#"+fmt.Sprint(i)] = objs[tk+"#"+fmt.Sprint(i)]
+				}
+			}
+		}
+		for _, gm := range cur.Globals {
+			for n, t := range gm {
+				gm[n] = canonT(t)
+			}
+		}
+	}
 	// functions and methods
 	for path, bf := range base.Funcs {
 		cf := cur.Funcs[path]
@@ -280,4 +362,30 @@ func recvDot(recv string) string {
 		return ""
 	}
 	return "(" + recv + ")."
+}
+
+// replaceIdent replaces occurrences of the qualified name nw by old where nw is not followed by an
+// identifier character (so "pkg.Foo" does not match inside "pkg.FooBar").
+func replaceIdent(s, nw, old string) string {
+	var b strings.Builder
+	for {
+		i := strings.Index(s, nw)
+		if i < 0 {
+			b.WriteString(s)
+			return b.String()
+		}
+		end := i + len(nw)
+		follow := byte(0)
+		if end < len(s) {
+			follow = s[end]
+		}
+		isIdent := follow == '_' || (follow >= '0' && follow <= '9') || (follow >= 'a' && follow <= 'z') || (follow >= 'A' && follow <= 'Z')
+		b.WriteString(s[:i])
+		if isIdent {
+			b.WriteString(nw)
+		} else {
+			b.WriteString(old)
+		}
+		s = s[end:]
+	}
 }
